@@ -128,6 +128,39 @@ def check_frame(frame):
       r.bad('C13/expired-timeout-write-raised/%s' % type(e).__name__, repr(e))
     if [c for c in t2.written if len(c)] != exp:
       r.bad('C13/payload-dropped-after-timeout', 'timeout expired after the header; chunks written: %r' % ([len(c) for c in t2.written],))
+    # the same on a clock that ticks 1 us per reading, with the deadline falling k readings after the header write began
+    # (k = 0: expired during the header write): the payload write must be given time to happen - a transport that takes a
+    # budget of 0 ms at its word (non-blocking socket, serial line) would send the header alone
+    import types  # pylint: disable=g-import-not-at-top
+    real_time_mod = timeouts.time
+    for k in range(0, 8):
+      clock = {'now': 1000.0}
+
+      def ticking():
+        clock['now'] += 1e-6
+        return clock['now']
+
+      timeouts.time = types.SimpleNamespace(time=ticking, sleep=real_time_mod.sleep, monotonic=ticking)
+      try:
+        tmo = timeouts.PolledTimeout.from_millis(5000)
+
+        def on_write_k(tr, data, tmo=tmo, k=k):
+          if isinstance(data, bytes) and len(data) == 24:
+            tmo.timeout_s = (clock['now'] - tmo.start) + k * 1e-6      # the deadline is k clock readings away
+
+        t3 = fk.ChunkTransport(on_write=on_write_k)
+        try:
+          m.adb_message.AdbTransportAdapter(t3).write_message(mk_msg(m, frame), tmo)
+        except Exception as e:  # pylint: disable=broad-except
+          r.bad('C13/expired-timeout-write-raised/%s' % type(e).__name__, repr(e))
+      finally:
+        timeouts.time = real_time_mod
+      budgets = [b for c, b in zip(t3.written, t3.budgets) if len(c)]
+      if [c for c in t3.written if len(c)] != exp:
+        r.bad('C13/payload-dropped-after-timeout', 'deadline %d clock readings after the header write; chunks written: %r' % (k, [len(c) for c in t3.written]))
+      elif budgets[-1] is not None and budgets[-1] <= 0:
+        r.bad('C13/payload-write-without-time-budget', 'deadline %d clock readings after the header write: the payload write was given %r ms (header: %r ms)' % (
+            k, budgets[-1], budgets[0]))
   return r, n_corr
 
 
